@@ -3,7 +3,6 @@ package main
 // C19 — connect URLs parse to exactly their components and reach the right dialer.
 
 import (
-	"go/token"
 	"strings"
 
 	"golang.org/x/tools/go/ssa"
@@ -11,9 +10,12 @@ import (
 
 func init() {
 	register("C19", true,
-		"Structural necessary conditions decided from source: (C19-lock) every read or write of the dialer registry map happens while its mutex is held (must-hold lockset over every function of package transport, so concurrent register/unregister/dial cannot race on the map); (C19-crash) crash-site inventory over ParseURL, DialURL, DialURLContext and everything they reach in package transport: every index/slice expression is proven in range by the compiler's prove pass or by the fact engine, no panic/log.Fatal/unchecked type assertion/unguarded division is reachable - so no raw string can panic the parser; (C19-dispatch) DialURLContext returns ErrMissingDialer exactly on the not-found edge of the registry lookup keyed by the URL's scheme and otherwise calls the looked-up dialer; ParseURL's success return is dominated by the 'target shorter than three characters' guard and by the digipeaters-unsupported guard (which depends on the scheme and on the number of digipeaters), and target and digipeaters derive from the upper-cased path. NOT decided: component fidelity (escaping, digi order, parameter preservation) for all tuples - equality of run-time strings.",
+		"Structural necessary conditions decided from source: (C19-lock) every read or write of the dialer registry map happens while its mutex is held (must-hold lockset over every function of package transport, a helper being entered with the lock held only if every one of its call sites holds it, and every function leaving the lock as it found it - so concurrent register/unregister/dial cannot race on the map), and no dialer is called, directly or by a callee, while it is held; (C19-register) RegisterDialer and RegisterContextDialer replace the scheme's entry on every path to a return (map update, a fresh map holding the entry where the registry is nil, or delegation of scheme and dialer to a function that does); (C19-crash) crash-site inventory over ParseURL, DialURL, DialURLContext and everything they reach in package transport: every index/slice expression is proven in range by the compiler's prove pass or by the fact engine, no panic/log.Fatal/unchecked type assertion/unguarded division is reachable - so no raw string can panic the parser; (C19-dispatch) DialURLContext (or the function it forwards to unchanged) returns ErrMissingDialer exactly on the not-found edge of the registry lookup keyed by the scheme of the URL passed in - the lookup made there or by a helper that returns both of its results - and otherwise calls the looked-up dialer; ParseURL's success return is dominated by the 'target shorter than three characters' guard and by the digipeaters-unsupported guard (whose conjuncts mean exactly 'at least one digipeater' and 'scheme is ardop or telnet', the latter decided by enumerating the outcomes of the scheme's comparisons, also inside a predicate function), the host parameter overrides the authority host exactly when it is non-empty, and target and digipeaters derive from the upper-cased path. NOT decided: component fidelity (escaping, digi order, parameter preservation) for all tuples - equality of run-time strings.",
 		checkC19)
 }
+
+// c19NoDigiSchemes: the transports of this module without digipeater support (sorted; DESIGN.md 2.3).
+var c19NoDigiSchemes = []string{"ardop", "telnet"}
 
 func checkC19(c *Ctx, r *Report) {
 	const pkg = "transport"
@@ -41,6 +43,9 @@ func checkC19(c *Ctx, r *Report) {
 		n := callName(ci.Common())
 		return (n == "sync.Mutex.Unlock" || n == "sync.RWMutex.Unlock") && isMu(ci.Common().Args[0])
 	}
+	// the lock state on entry of a helper is lifted from its call sites (all of them must hold the
+	// lock), so an access may live in a helper that is only called inside the critical section
+	ls, lsX := g6NewLockset(c, isLock, isUnlock), g6NewLockset(c, isXLock, isXUnlock)
 	nAcc := 0
 	for _, fn := range c.SrcFuncs(pkg) {
 		var held, heldX map[ssa.Instruction]bool
@@ -68,7 +73,7 @@ func checkC19(c *Ctx, r *Report) {
 				return
 			}
 			if held == nil {
-				held = heldAt(fn, isLock, isUnlock)
+				held = ls.held(fn)
 			}
 			nAcc++
 			what := "read"
@@ -86,7 +91,7 @@ func checkC19(c *Ctx, r *Report) {
 			}
 			if what != "read" {
 				if heldX == nil {
-					heldX = heldAt(fn, isXLock, isXUnlock)
+					heldX = lsX.held(fn)
 				}
 				r.Check("C19-lock", fnName(fn), desc, c.pos(instr.Pos()), heldX[instr],
 					"dialers.mu is held exclusively on every path to this write", "dialers.mu is not held exclusively on every path to this write (a read lock admits concurrent readers and writers: concurrent map read and map write with a dial or another unregister)")
@@ -103,88 +108,58 @@ func checkC19(c *Ctx, r *Report) {
 		var held map[ssa.Instruction]bool
 		for _, ci := range allCalls(fn) {
 			if !ci.Common().IsInvoke() {
+				// a function of the package that makes the interface call on behalf of this one
+				callee := ci.Common().StaticCallee()
+				if callee == nil || pkgRel(callee) != pkg {
+					continue
+				}
+				via := g6CallsOutVia(callee, pkg, 0, map[*ssa.Function]bool{})
+				if via == "" {
+					continue
+				}
+				if held == nil {
+					held = ls.held(fn)
+				}
+				r.Check("C19-lock", fnName(fn), "call-out through "+c.exprAt(fn, ci.Pos()), c.pos(ci.Pos()), !held[ci],
+					"made without holding dialers.mu (the interface call is in "+via+")", "a function that makes an interface call ("+via+") is called while dialers.mu is held: concurrent register/unregister/dial calls block for the whole dial, and a dialer that dials through the registry deadlocks")
 				continue
 			}
 			if held == nil {
-				held = heldAt(fn, isLock, isUnlock)
+				held = ls.held(fn)
 			}
 			r.Check("C19-lock", fnName(fn), "call-out "+c.exprAt(fn, ci.Pos()), c.pos(ci.Pos()), !held[ci],
 				"made without holding dialers.mu", "an interface call (a dialer) is made while dialers.mu is held: concurrent register/unregister/dial calls block for the whole dial, and a dialer that dials through the registry deadlocks")
+		}
+	}
+	// every function leaves the lock as it found it: the lockset above is computed per function, so a
+	// helper that returns with the lock held would make its caller's call-outs look unlocked
+	for _, fn := range c.SrcFuncs(pkg) {
+		if !ls.touches(fn) {
+			continue
+		}
+		for _, ret := range returnsOf(fn) {
+			onEntry := ls.entryHeld(fn)
+			bad := "dialers.mu is still held after this return although it was not on entry: the caller goes on (dials) inside the critical section and nobody releases the lock"
+			if onEntry {
+				bad = "dialers.mu has been released at this return although every caller holds it across the call: the caller's later accesses are unprotected"
+			}
+			r.Check("C19-lock", fnName(fn), "lock state at return", c.pos(ret.Pos()), ls.heldAtReturn(fn, ret) == onEntry,
+				"dialers.mu is left as it was on entry (released here or by a deferred unlock registered on every path)", bad)
 		}
 	}
 
 	// ---- C19-register: the last registration for a scheme wins, on every path
 	r.Rule("C19-register", 2, "registering a dialer always replaces the scheme's entry")
 	{
-		isUpdate := func(fn *ssa.Function, in ssa.Instruction) bool {
-			mu, ok := in.(*ssa.MapUpdate)
-			if !ok || !strings.HasSuffix(pathOf(mu.Map), "transport.dialers.m") {
-				return false
-			}
-			keyOK, valOK := false, false
-			for _, p := range fn.Params {
-				if isStringLike(p.Type()) && sameSlotValue(mu.Key, p) {
-					keyOK = true
-				}
-				if !isStringLike(p.Type()) && dependsOn(mu.Value, func(x ssa.Value) bool { return sameSlotValue(x, p) }) {
-					valOK = true
-				}
-			}
-			return keyOK && valOK
-		}
-		registers := map[*ssa.Function]bool{}
-		var decide func(fn *ssa.Function, depth int) bool
-		decide = func(fn *ssa.Function, depth int) bool {
-			if v, ok := registers[fn]; ok {
-				return v
-			}
-			registers[fn] = false
-			var ups []ssa.Instruction
-			eachInstr(fn, func(_ *ssa.BasicBlock, _ int, in ssa.Instruction) {
-				if isUpdate(fn, in) {
-					ups = append(ups, in)
-				}
-				if call, ok := in.(*ssa.Call); ok && depth < 3 {
-					if callee := call.Call.StaticCallee(); callee != nil && callee != fn && pkgRel(callee) == pkg && len(call.Call.Args) >= 2 {
-						// delegation: scheme passed on unchanged, dialer passed on (possibly wrapped)
-						passScheme, passDialer := false, false
-						for _, p := range fn.Params {
-							if isStringLike(p.Type()) && sameSlotValue(call.Call.Args[0], p) {
-								passScheme = true
-							}
-							if !isStringLike(p.Type()) && dependsOn(call.Call.Args[1], func(x ssa.Value) bool { return sameSlotValue(x, p) }) {
-								passDialer = true
-							}
-						}
-						if passScheme && passDialer && decide(callee, depth+1) {
-							ups = append(ups, in)
-						}
-					}
-				}
-			})
-			all := len(ups) > 0
-			for _, ret := range returnsOf(fn) {
-				dom := false
-				for _, u := range ups {
-					if instrDominates(u, ret) {
-						dom = true
-					}
-				}
-				if !dom {
-					all = false
-				}
-			}
-			registers[fn] = all
-			return all
-		}
+		// decided over every path and through delegation with bound parameters (c19Registers, ip_g6.go)
 		for _, n := range []string{"RegisterDialer", "RegisterContextDialer"} {
 			fn := c.Func(pkg, n)
 			if fn == nil {
 				r.Fail("C19-register", "anchor transport.%s not found", n)
 				continue
 			}
-			r.Check("C19-register", fnName(fn), "every return follows dialers.m[scheme] = dialer", c.pos(fn.Pos()), decide(fn, 0),
-				"the entry for the scheme is replaced on every path (directly or by delegating scheme and dialer to a function that does)", "a return can be reached without replacing the scheme's entry (e.g. when one is already registered): a later dial reaches the old dialer instead of the one registered last")
+			r.Check("C19-register", fnName(fn), "every return follows dialers.m[scheme] = dialer", c.pos(fn.Pos()), c19Registers(fn, pkg),
+				"the entry for the scheme is replaced on every path (by a map update, by installing a map that holds the entry where the registry is nil, or by delegating scheme and dialer to a function that does)", "a return can be reached without replacing the scheme's entry (e.g. when one is already registered): a later dial reaches the old dialer instead of the one registered last (installing a fresh map counts only where the registry is known to be nil)")
 		}
 	}
 
@@ -204,32 +179,48 @@ func checkC19(c *Ctx, r *Report) {
 		bcePkgs: []string{pkg},
 	})
 	r.Infos["crash_inventory"] = st
+	g6CrashScopeObligation(c, r, "C19-crash", pkg, entries, st)
 
 	// ---- C19-dispatch
 	r.Rule("C19-dispatch", 4, "dispatch on the registry lookup; ParseURL guards")
-	if fn := entries[2]; fn != nil {
-		where := fnName(fn)
-		var look *ssa.Lookup
-		eachInstr(fn, func(_ *ssa.BasicBlock, _ int, instr ssa.Instruction) {
-			if l, ok := instr.(*ssa.Lookup); ok && l.CommaOk && strings.HasSuffix(pathOf(l.X), "transport.dialers.m") {
-				look = l
-			}
-		})
+	if entry := entries[2]; entry != nil {
+		where := fnName(entry)
+		// the function that dispatches: the entry point, or the function it forwards to unchanged;
+		// the lookup: made there, or by a helper that hands back both of its results (ip_g6.go)
+		fn := c19DispatchFn(entry, pkg)
+		in := ""
+		if fn != entry {
+			in = " in " + fnName(fn) + " (to which " + entry.Name() + " forwards its parameters and whose results it returns)"
+		}
+		var look *c19RegLookup
+		for _, l := range c19Lookups(fn, pkg, 0) {
+			l := l
+			look = &l
+		}
 		o := r.Add("C19-dispatch", where, "lookup keyed by url.Scheme", c.pos(fn.Pos()))
 		if look == nil {
-			o.Bad("no comma-ok lookup in dialers.m found")
-		} else if !strings.HasSuffix(pathOf(look.Index), ".Scheme") {
-			o.Bad("registry lookup at %s is keyed by %s, not by the URL's scheme", c.pos(look.Pos()), pathOf(look.Index))
+			o.Bad("no comma-ok lookup in dialers.m found (neither in %s nor in a helper that returns the lookup's two results)", fnName(fn))
+		} else if !strings.HasSuffix(look.keyPath(), ".Scheme") {
+			o.Bad("registry lookup at %s is keyed by %s, not by the URL's scheme", c.pos(look.tuple.Pos()), look.keyPath())
+		} else if g6ParamIndex(fn, look.keyRoot) < 0 {
+			o.Bad("registry lookup at %s is keyed by %s, which is not the scheme of the URL passed in", c.pos(look.tuple.Pos()), look.keyPath())
+		} else if look.via != "" {
+			o.OK("dialers.m[%s] with comma-ok, made by %s which returns both results unchanged, called at %s%s", look.keyPath(), look.via, c.pos(look.tuple.Pos()), in)
 		} else {
-			o.OK("dialers.m[%s] with comma-ok at %s", pathOf(look.Index), c.pos(look.Pos()))
+			o.OK("dialers.m[%s] with comma-ok at %s%s", look.keyPath(), c.pos(look.tuple.Pos()), in)
 		}
 		if look != nil {
 			isOK := func(v ssa.Value) bool {
 				ex, ok := v.(*ssa.Extract)
-				return ok && ex.Tuple == ssa.Value(look) && ex.Index == 1
+				return ok && ex.Tuple == look.tuple && ex.Index == look.okIdx
 			}
 			nMissing, nCall := 0, 0
 			for _, ret := range returnsOf(fn) {
+				if len(ret.Results) != 2 {
+					nCall++
+					r.Add("C19-dispatch", where, "return dialer.DialURLContext(ctx, url)", c.pos(ret.Pos())).Bad("return of %s does not have the shape (conn, error)", fnName(fn))
+					continue
+				}
 				errV := resOf(ret, 1)
 				if ld, ok := errV.(*ssa.UnOp); ok && strings.HasSuffix(pathOf(ld), "transport.ErrMissingDialer") {
 					nMissing++
@@ -250,7 +241,7 @@ func checkC19(c *Ctx, r *Report) {
 				if ex, ok := errV.(*ssa.Extract); ok {
 					if call, ok := ex.Tuple.(*ssa.Call); ok && call.Call.IsInvoke() {
 						recv := call.Call.Value
-						if e0, ok := recv.(*ssa.Extract); ok && e0.Tuple == ssa.Value(look) && e0.Index == 0 {
+						if e0, ok := recv.(*ssa.Extract); ok && e0.Tuple == look.tuple && e0.Index == look.dIdx {
 							for _, cd := range condsAt(call.Block()) {
 								if isOK(cd.V) && cd.Truth {
 									good = true
@@ -327,9 +318,16 @@ func checkC19(c *Ctx, r *Report) {
 				if !g.Head.Dominates(okRet.Block()) || g.Head == okRet.Block() || insideChain(g, okRet.Block()) {
 					continue
 				}
-				depLen, depScheme := false, false
-				schemes := map[string]bool{}
+				// every conjunct of the guard is either exactly "at least one digipeater" or a test that
+				// holds exactly for the schemes without digipeater support (decided by enumerating the
+				// outcomes of the comparisons of the scheme, also inside a predicate of the package);
+				// any other conjunct would let digipeaters through for those schemes
+				depLen, depScheme, other := false, false, false
+				isScheme := func(root ssa.Value, suffix string) bool {
+					return strings.HasSuffix(derefPath(pathOf(root))+suffix, ".Scheme")
+				}
 				for _, cd := range g.Conj {
+					isLen := false
 					if dependsOn(cd.V, func(v ssa.Value) bool {
 						call, ok := v.(*ssa.Call)
 						return ok && callName(&call.Call) == "builtin.len"
@@ -341,90 +339,40 @@ func checkC19(c *Ctx, r *Report) {
 						cl.f.close()
 						for name, j := range cl.f.idx {
 							if strings.HasPrefix(name, "len:") && cl.f.d[cl.f.idx[""]][j] == -1 {
-								depLen = true
+								isLen = true
 							}
 						}
 					}
-					if dependsOn(cd.V, func(v ssa.Value) bool {
-						b, ok := v.(*ssa.BinOp)
-						if !ok || b.Op != token.EQL {
-							return false
-						}
-						s, isS := constString(b.Y)
-						if isS && strings.HasSuffix(pathOf(b.X), ".Scheme") {
-							schemes[s] = true
-						}
-						return false
-					}) {
+					if isLen {
+						depLen = true
+						continue
 					}
+					set, ok, _ := g6SchemeSetOf(pkg, cd.V, cd.Truth, isScheme)
+					if ok && strings.Join(set, ",") == strings.Join(c19NoDigiSchemes, ",") {
+						depScheme = true
+						continue
+					}
+					other = true
 				}
-				depScheme = schemes["ardop"] && schemes["telnet"] // the transports of this module without digipeater support
+				if other {
+					continue
+				}
 				if depLen && depScheme {
 					found = true
 				}
 			}
 		}
 		if found {
-			o.OK("a return of ErrDigisUnsupported, taken when digipeaters are present and the scheme is one of the constants compared, guards the success return")
+			o.OK("a return of ErrDigisUnsupported, taken exactly when at least one digipeater is present and the scheme is one of %s (the scheme test evaluated for every constant it compares with and for any other scheme), guards the success return", strings.Join(c19NoDigiSchemes, ", "))
 		} else {
 			o.Bad("no guard returning ErrDigisUnsupported (depending on the number of digipeaters and on the scheme being ardop or telnet) dominates the success return")
 		}
 		// the host query parameter overrides the host whenever it is non-empty
 		o = r.Add("C19-dispatch", where, "host parameter overrides the host", c.pos(fn.Pos()))
-		{
-			var hostStore *ssa.Store
-			eachInstr(fn, func(_ *ssa.BasicBlock, _ int, instr ssa.Instruction) {
-				st, ok := instr.(*ssa.Store)
-				if !ok {
-					return
-				}
-				fa, ok := st.Addr.(*ssa.FieldAddr)
-				if !ok || fieldName(fa.X.Type(), fa.Field) != "Host" {
-					return
-				}
-				if dependsOn(st.Val, func(v ssa.Value) bool {
-					call, ok := v.(*ssa.Call)
-					if !ok || callName(&call.Call) != "net/url.Values.Get" {
-						return false
-					}
-					k, _ := constString(call.Call.Args[1])
-					return k == "host"
-				}) {
-					hostStore = st
-				}
-			})
-			switch {
-			case hostStore == nil:
-				o.Bad("the 'host' query parameter is never stored in URL.Host")
-			default:
-				bad := ""
-				nonEmpty := false
-				for _, cd := range condsAt(hostStore.Block()) {
-					if !instrDominates(cd.If, hostStore) {
-						continue
-					}
-					b, isB := cd.V.(*ssa.BinOp)
-					if isB {
-						if sv, isS := constString(b.Y); isS && sv == "" && (b.X == hostStore.Val || pathOf(b.X) == pathOf(hostStore.Val)) && (b.Op == token.NEQ) == cd.Truth {
-							nonEmpty = true
-							continue
-						}
-					}
-					if dependsOn(cd.V, func(v ssa.Value) bool {
-						ld, ok := v.(*ssa.UnOp)
-						return ok && ld.Op == token.MUL && strings.HasSuffix(pathOf(ld), ".Host")
-					}) {
-						bad = "the override is made conditional on the current value of the host at " + c.pos(cd.V.Pos())
-					}
-				}
-				if bad != "" {
-					o.Bad("%s: a URL with both an authority host and ?host= keeps the wrong one", bad)
-				} else if !nonEmpty {
-					o.Bad("the host is overwritten even when the parameter is empty")
-				} else {
-					o.OK("URL.Host = Params.Get(\"host\") whenever that value is non-empty, whatever the authority host")
-				}
-			}
+		if ok, why := c19HostOverride(c, fn, pkg); ok {
+			o.OK("URL.Host = Params.Get(\"host\") whenever that value is non-empty, whatever the authority host")
+		} else {
+			o.Bad("%s", why)
 		}
 		o = r.Add("C19-dispatch", where, "target and digipeaters are upper-cased", c.pos(fn.Pos()))
 		isUpper := func(v ssa.Value) bool {
